@@ -75,7 +75,4 @@ impl WriteGuard {
 }
 pub enum ActorError { ServiceStillRunning, AlreadyStopped, Other }
 
-// taking the entry under key k out of the registry (removing or overwriting it) evicts a live instance iff one is registered there
-pub open spec fn evicts(w: &World, k: int) -> int { if reg_live(w, w.registry, k) { 1 } else { 0 } }
-pub open spec fn reg_live(w: &World, rg: Map<int, AnyVal>, k: int) -> bool { rg.dom().contains(k) && !w.slots[rg[k].slot].resolved }
 pub trait Service: Actor + Default {}
